@@ -6,7 +6,11 @@
    The subset: var / let / const with hoisting and temporal dead zones, function declarations (hoisted), function
    expressions, arrows and NAMED function expressions (immutable own-name binding), closures capturing environments,
    blocks, if, for(let ..;..;..) with per-iteration environments (ECMA-262 14.7.4.3 CreatePerIterationEnvironment) and
-   for(var ...), try / catch (parameter scope) / finally, return, throw; expressions: number literals, identifier reference,
+   for(var ...) with break / continue, switch (one block scope for all clauses, fall-through), try / catch (parameter scope) /
+   finally, return, throw; parameters with DEFAULT VALUE expressions (10.2.11 steps 19-28: parameter scope, separate variable
+   environment for the body), the ARGUMENTS object (mapped in sloppy functions with simple parameter lists: arguments[i] and the
+   i-th parameter are one location; unmapped otherwise; lexical in arrow functions), redeclarations (var over parameter, var
+   over function, several function declarations of one name); expressions: number literals, identifier reference,
    typeof identifier, =, +=, postfix ++, +, <, comma, calls, log(e); strict and sloppy code (assignment to an undeclared
    name, to a const, to the own name of a named function expression).
 
@@ -74,19 +78,26 @@ TypeofCode(v) == CASE v.t = "num" -> 1 [] v.t = "undef" -> 2 [] v.t = "fn" -> 3 
 \* Store and environment records
 Absent == [s |-> "absent", v |-> Undef, m |-> "mut"]
 NoVars == [n \in Names |-> Absent]
-Env(parent, vs) == [parent |-> parent, vars |-> vs]
-Store0 == [envs |-> <<Env(0, NoVars)>>, fns |-> <<>>, log |-> <<>>, fuel |-> 400]    \* envs[1]: the global environment
+\* fenv: the environment of the nearest enclosing non-arrow function (it owns `arguments`); args / ps / nmap are meaningful in
+\* such an environment only: the argument values as passed, the parameter names, the number of MAPPED arguments
+Env(parent, vs, fenv) == [parent |-> parent, vars |-> vs, fenv |-> fenv, args |-> <<>>, alen |-> 0, ps |-> <<>>, nmap |-> 0]
+Store0 == [envs |-> <<Env(0, NoVars, 1)>>, fns |-> <<>>, log |-> <<>>, fuel |-> 400]    \* envs[1]: the global environment
 
 Ok(st, v) == [st |-> st, c |-> [ty |-> "normal", v |-> v]]
 Thr(st, v) == [st |-> st, c |-> [ty |-> "throw", v |-> v]]
 Ret(st, v) == [st |-> st, c |-> [ty |-> "return", v |-> v]]
+Brk(st) == [st |-> st, c |-> [ty |-> "break", v |-> Undef]]
+Cont(st) == [st |-> st, c |-> [ty |-> "continue", v |-> Undef]]
 Abrupt(r) == r.c.ty # "normal"
 
 \* 9.1.2.1 GetIdentifierReference: the environment that holds x, 0 = unresolvable
 RECURSIVE Resolve(_, _, _)
 Resolve(st, env, x) == IF env = 0 THEN 0 ELSE IF st.envs[env].vars[x].s # "absent" THEN env ELSE Resolve(st, st.envs[env].parent, x)
 
-NewEnv(st, parent, vs) == [st EXCEPT !.envs = Append(@, Env(parent, vs))]
+NewEnv(st, parent, vs) == [st EXCEPT !.envs = Append(@, Env(parent, vs, st.envs[parent].fenv))]
+\* the environment of a non-arrow function call: it is its own fenv
+NewFEnv(st, parent, vs, args, ps, nmap) ==
+  [st EXCEPT !.envs = Append(@, [parent |-> parent, vars |-> vs, fenv |-> Len(st.envs) + 1, args |-> args, alen |-> Len(args), ps |-> ps, nmap |-> nmap])]
 Top(st) == Len(st.envs)
 SetB(st, env, x, b) == [st EXCEPT !.envs[env].vars[x] = b]
 Init(v, m) == [s |-> "init", v |-> v, m |-> m]
@@ -111,6 +122,8 @@ VarNames(s) == CASE s.t = "var" -> {s.x}
                  [] s.t \in {"block", "if"} -> VarNamesL(s.k, IF s.t = "if" THEN 2 ELSE 1)
                  [] s.t = "for" -> (IF s.n = 1 THEN {s.x} ELSE {}) \cup VarNames(s.k[4])
                  [] s.t = "try" -> VarNamesL(s.k, 1)
+                 [] s.t = "switch" -> VarNamesL(s.k, 2)
+                 [] s.t = "case" -> VarNamesL(s.k, 2)
                  [] OTHER -> {}
 VarNamesL(l, i) == IF i > Len(l) THEN {} ELSE VarNames(l[i]) \cup VarNamesL(l, i + 1)
 LexDecls(l) == {i \in 1..Len(l) : l[i].t \in {"let", "const"}}
@@ -122,11 +135,12 @@ LexVars(l, base) == [n \in Names |-> IF \E i \in LexDecls(l) : l[i].x = n
 
 -----------------------------------------------------------------------------
 RECURSIVE EvalE(_, _, _, _), EvalS(_, _, _, _), EvalL(_, _, _, _, _), EvalArgs(_, _, _, _, _, _), CallFn(_, _, _),
-          EvalBlock(_, _, _, _), ForLoop(_, _, _, _, _), HoistF(_, _, _, _, _)
+          EvalBlock(_, _, _, _), ForLoop(_, _, _, _, _), HoistF(_, _, _, _, _), BindParams(_, _, _, _, _, _),
+          FindCase(_, _, _, _, _, _), RunCases(_, _, _, _, _)
 
 \* closures: [p: parameter names, body: statement list, env, kind: "arrow" | "func" | "named", name, strict]
 MkFn(st, e, env, strict) ==
-  LET cl == [p |-> e.p, body |-> e.k, env |-> env, kind |-> e.kind, name |-> e.x, strict |-> strict \/ e.s = 1]
+  LET cl == [p |-> e.p, d |-> e.d, body |-> e.k, env |-> env, kind |-> e.kind, name |-> e.x, strict |-> strict \/ e.s = 1]
   IN [st |-> [st EXCEPT !.fns = Append(@, cl)], id |-> Len(st.fns) + 1]
 
 EvalE(e, env, st, sm) ==
@@ -168,6 +182,18 @@ EvalE(e, env, st, sm) ==
                                       ELSE IF ValLt(a.c.v, b.c.v) = Other THEN Thr(b.st, Err(7777))      \* comparison of two strings: outside the model
                                       ELSE Ok(b.st, ValLt(a.c.v, b.c.v)))
     [] e.t = "seq" -> (LET a == EvalE(e.k[1], env, st, sm) IN IF Abrupt(a) THEN a ELSE EvalE(e.k[2], env, a.st, sm))
+    \* the arguments object of the nearest enclosing non-arrow function (10.4.4: a mapped index and its parameter are one location)
+    [] e.t = "arglen" -> Ok(st, Num(st.envs[st.envs[env].fenv].alen))
+    [] e.t = "argget" -> (LET fe == st.envs[env].fenv F == st.envs[fe] IN
+                          IF e.n < F.nmap THEN Ok(st, F.vars[F.ps[e.n + 1]].v)
+                          ELSE IF e.n < Len(F.args) THEN Ok(st, F.args[e.n + 1]) ELSE Ok(st, Undef))
+    [] e.t = "argset" -> (LET r == EvalE(e.k[1], env, st, sm) IN
+                          IF Abrupt(r) THEN r
+                          ELSE LET fe == r.st.envs[env].fenv F == r.st.envs[fe] IN
+                               IF e.n < F.nmap THEN Ok(SetB(r.st, fe, F.ps[e.n + 1], Init(r.c.v, "mut")), r.c.v)
+                               ELSE LET padded == [i \in 1..(IF e.n + 1 > Len(F.args) THEN e.n + 1 ELSE Len(F.args)) |->
+                                                     IF i = e.n + 1 THEN r.c.v ELSE IF i <= Len(F.args) THEN F.args[i] ELSE Undef]
+                                    IN Ok([r.st EXCEPT !.envs[fe].args = padded], r.c.v))
 
 \* arguments left to right; result [r: last evaluation (for the store / an abrupt completion), vals]
 EvalArgs(k, i, env, st, sm, acc) ==
@@ -181,6 +207,20 @@ HoistF(l, idx, env, st, sm) ==       \* instantiate the function declarations of
   ELSE IF l[idx].t # "fdecl" THEN HoistF(l, idx + 1, env, st, sm)
   ELSE LET m == MkFn(st, l[idx], env, sm) IN HoistF(l, idx + 1, env, SetB(m.st, env, l[idx].x, Init(Fn(m.id), "mut")), sm)
 
+HasDefaults(cl) == \E i \in 1..Len(cl.d) : cl.d[i].t # "none"
+IsParam(cl, n) == \E i \in 1..Len(cl.p) : cl.p[i] = n
+MinI(a, b) == IF a < b THEN a ELSE b
+
+\* 10.2.11 steps 24-26 with parameter expressions: parameters are initialised left to right in the parameter scope; a default
+\* value expression is evaluated there (earlier parameters visible, later ones in their temporal dead zone)
+BindParams(cl, i, args, penv, st, sm) ==
+  IF i > Len(cl.p) THEN Ok(st, Undef)
+  ELSE LET given == i <= Len(args) /\ args[i].t # "undef"
+           r == IF given THEN Ok(st, args[i])
+                ELSE IF cl.d[i].t = "none" THEN Ok(st, Undef)
+                ELSE EvalE(cl.d[i], penv, st, sm)
+       IN IF Abrupt(r) THEN r ELSE BindParams(cl, i + 1, args, penv, SetB(r.st, penv, cl.p[i], Init(r.c.v, "mut")), sm)
+
 CallFn(st0, id, args) ==
   LET cl == st0.fns[id] IN
   IF st0.fuel <= 0 THEN Thr(st0, Err(7777))
@@ -190,17 +230,31 @@ CallFn(st0, id, args) ==
       st1 == IF cl.kind = "named" THEN NewEnv(st, cl.env, [NoVars EXCEPT ![cl.name] = Init(Fn(id), "fname")]) ELSE st
       outer == IF cl.kind = "named" THEN Top(st1) ELSE cl.env
       vnames == VarNamesL(cl.body, 1)
-      pv == [n \in Names |-> IF \E i \in 1..Len(cl.p) : cl.p[i] = n
-                             THEN (LET i == CHOOSE j \in 1..Len(cl.p) : cl.p[j] = n /\ \A j2 \in 1..Len(cl.p) : cl.p[j2] = n => j2 <= j
-                                   IN Init(IF i <= Len(args) THEN args[i] ELSE Undef, "mut"))
-                             ELSE IF n \in vnames THEN Init(Undef, "mut") ELSE Absent]
-      st2 == NewEnv(st1, outer, LexVars(cl.body, pv))
-      fenv == Top(st2)
-      st3 == HoistF(cl.body, 1, fenv, st2, cl.strict)
-      r == EvalL(cl.body, 1, fenv, st3, cl.strict)
-  IN IF r.c.ty = "return" THEN Ok(r.st, r.c.v)
-     ELSE IF r.c.ty = "throw" THEN r
-     ELSE Ok(r.st, Undef)
+      arrow == cl.kind = "arrow"
+      Finish(r) == IF r.c.ty = "return" THEN Ok(r.st, r.c.v) ELSE IF r.c.ty = "throw" THEN r ELSE Ok(r.st, Undef)
+  IN
+  IF ~HasDefaults(cl)
+  THEN \* simple parameter list: parameters, vars and top-level lexical declarations of the body share one environment
+       LET pv == [n \in Names |-> IF IsParam(cl, n)
+                                   THEN (LET i == CHOOSE j \in 1..Len(cl.p) : cl.p[j] = n IN Init(IF i <= Len(args) THEN args[i] ELSE Undef, "mut"))
+                                   ELSE IF n \in vnames THEN Init(Undef, "mut") ELSE Absent]
+           nmap == IF cl.strict THEN 0 ELSE MinI(Len(cl.p), Len(args))      \* sloppy + simple parameters: mapped arguments object
+           st2 == IF arrow THEN NewEnv(st1, outer, LexVars(cl.body, pv)) ELSE NewFEnv(st1, outer, LexVars(cl.body, pv), args, cl.p, nmap)
+           fenv == Top(st2)
+           st3 == HoistF(cl.body, 1, fenv, st2, cl.strict)
+       IN Finish(EvalL(cl.body, 1, fenv, st3, cl.strict))
+  ELSE \* parameter scope + separate variable environment (the arguments object is unmapped)
+       LET pt == [n \in Names |-> IF IsParam(cl, n) THEN TDZ("mut") ELSE Absent]
+           stP == IF arrow THEN NewEnv(st1, outer, pt) ELSE NewFEnv(st1, outer, pt, args, cl.p, 0)
+           penv == Top(stP)
+           bp == BindParams(cl, 1, args, penv, stP, cl.strict)
+       IN IF Abrupt(bp) THEN bp
+          ELSE LET vv == [n \in Names |-> IF n \in vnames
+                                            THEN Init(IF IsParam(cl, n) THEN bp.st.envs[penv].vars[n].v ELSE Undef, "mut") ELSE Absent]
+                   stV == NewEnv(bp.st, penv, LexVars(cl.body, vv))
+                   venv == Top(stV)
+                   st3 == HoistF(cl.body, 1, venv, stV, cl.strict)
+               IN Finish(EvalL(cl.body, 1, venv, st3, cl.strict))
 
 EvalL(l, i, env, st, sm) ==
   IF i > Len(l) THEN Ok(st, Undef)
@@ -212,7 +266,7 @@ EvalBlock(l, env, st, sm) ==
   ELSE LET st1 == NewEnv(st, env, LexVars(l, NoVars)) IN EvalL(l, 1, Top(st1), st1, sm)
 
 \* 14.7.4.3 CreatePerIterationEnvironment: a copy of the current iteration's bindings in a new environment
-CopyEnv(st, env) == NewEnv(st, st.envs[env].parent, st.envs[env].vars)
+CopyEnv(st, env) == [st EXCEPT !.envs = Append(@, [st.envs[env] EXCEPT !.args = <<>>])]
 
 \* 14.7.4.2 ForBodyEvaluation; per = TRUE for let loops
 ForLoop(s, env, st, sm, per) ==
@@ -222,11 +276,28 @@ ForLoop(s, env, st, sm, per) ==
   IF Abrupt(t) THEN t
   ELSE IF ~Truthy(t.c.v) THEN Ok(t.st, Undef)
   ELSE LET b == EvalBlock(s.k[4].k, env, t.st, sm) IN
-       IF Abrupt(b) THEN b
+       IF b.c.ty = "break" THEN Ok(b.st, Undef)
+       ELSE IF b.c.ty \in {"return", "throw"} THEN b
        ELSE LET st1 == IF per THEN CopyEnv(b.st, env) ELSE b.st
                 env1 == IF per THEN Top(st1) ELSE env
                 u == EvalE(s.k[3], env1, st1, sm)
             IN IF Abrupt(u) THEN u ELSE ForLoop(s, env1, u.st, sm, per)
+
+\* switch helpers: k = <<discriminant, clause...>>, clause = [t |-> "case", n |-> 1 for default, k |-> <<test, stmt...>>]
+RECURSIVE AllCaseStmts(_, _)
+AllCaseStmts(k, i) == IF i > Len(k) THEN <<>> ELSE SubSeq(k[i].k, 2, Len(k[i].k)) \o AllCaseStmts(k, i + 1)
+DefaultIdx(k) == IF \E i \in 2..Len(k) : k[i].n = 1 THEN CHOOSE i \in 2..Len(k) : k[i].n = 1 ELSE 0
+StrictEq(a, b) == a.t = b.t /\ a.v = b.v /\ ~IsNaN(a) /\ a.t \in {"num", "bool", "undef", "fn"}
+FindCase(k, i, dv, env, st, sm) ==
+  IF i > Len(k) THEN [r |-> Ok(st, Undef), idx |-> 0]
+  ELSE IF k[i].n = 1 THEN FindCase(k, i + 1, dv, env, st, sm)
+  ELSE LET t == EvalE(k[i].k[1], env, st, sm) IN
+       IF Abrupt(t) THEN [r |-> t, idx |-> 0]
+       ELSE IF StrictEq(t.c.v, dv) THEN [r |-> Ok(t.st, Undef), idx |-> i]
+       ELSE FindCase(k, i + 1, dv, env, t.st, sm)
+RunCases(k, i, env, st, sm) ==
+  IF i > Len(k) THEN Ok(st, Undef)
+  ELSE LET r == EvalL(SubSeq(k[i].k, 2, Len(k[i].k)), 1, env, st, sm) IN IF Abrupt(r) THEN r ELSE RunCases(k, i + 1, env, r.st, sm)
 
 EvalS(s, env, st, sm) ==
   CASE s.t = "expr" -> (LET r == EvalE(s.k[1], env, st, sm) IN IF Abrupt(r) THEN r ELSE Ok(r.st, Undef))
@@ -258,6 +329,20 @@ EvalS(s, env, st, sm) ==
                IN IF Abrupt(iv) THEN iv
                   ELSE LET st2 == CopyEnv(SetB(iv.st, loopEnv, s.x, Init(iv.c.v, "mut")), loopEnv)
                        IN ForLoop(s, Top(st2), st2, sm, TRUE))
+    [] s.t = "break" -> Brk(st)
+    [] s.t = "continue" -> Cont(st)
+    \* 14.12.4: one block scope for the whole CaseBlock; the clause tests are evaluated in order until one is strictly equal
+    [] s.t = "switch" ->
+         (LET d == EvalE(s.k[1], env, st, sm) IN
+          IF Abrupt(d) THEN d
+          ELSE LET all == AllCaseStmts(s.k, 2)
+                   st1 == IF LexDecls(all) = {} THEN d.st ELSE NewEnv(d.st, env, LexVars(all, NoVars))
+                   benv == IF LexDecls(all) = {} THEN env ELSE Top(st1)
+                   fc == FindCase(s.k, 2, d.c.v, benv, st1, sm)
+               IN IF Abrupt(fc.r) THEN fc.r
+                  ELSE LET start == IF fc.idx # 0 THEN fc.idx ELSE DefaultIdx(s.k)
+                           r == IF start = 0 THEN Ok(fc.r.st, Undef) ELSE RunCases(s.k, start, benv, fc.r.st, sm)
+                       IN IF r.c.ty = "break" THEN Ok(r.st, Undef) ELSE r)
     [] s.t = "return" -> (LET r == EvalE(s.k[1], env, st, sm) IN IF Abrupt(r) THEN r ELSE Ret(r.st, r.c.v))
     [] s.t = "throw" -> (LET r == EvalE(s.k[1], env, st, sm) IN IF Abrupt(r) THEN r ELSE Thr(r.st, r.c.v))
     [] s.t = "try" ->
@@ -272,7 +357,7 @@ EvalS(s, env, st, sm) ==
 -----------------------------------------------------------------------------
 \* a program is the body of a parameterless top-level function: [id, strict, body]
 Run(p) ==
-  LET top == [p |-> <<>>, k |-> p.body, kind |-> "func", x |-> "f", s |-> p.strict]
+  LET top == [p |-> <<>>, d |-> <<>>, k |-> p.body, kind |-> "func", x |-> "f", s |-> p.strict]
       m == MkFn(Store0, top, 1, FALSE)
       r == CallFn(m.st, m.id, <<>>)
   IN [id |-> p.id, log |-> r.st.log,
